@@ -13,7 +13,7 @@ from .c17 import TEXTS
 INFO = {
     "bounds": {
         "quick": "trees T15, T07, T06, T09 and menuconfig fixtures x initial file in {absent, written by the tool for a (sampled) user state, hand-edited: default markers stripped / unknown entry added / duplicate entry added / (tree T13b) an entry given through a deprecated name}: every sequence of 2 UI actions (toggle, typed value, choice member select, reset option / menu, load other file, save, navigation), first action fixed per job; after the start and after every action: if needs_save() is false the file equals what saving would write (tool-written files: byte-identical; hand-edited files: same values and same user/default status when loaded fresh); right after a save and right after loading a tool-written file needs_save() is false",
-        "thorough": "3 actions, more trees",
+        "thorough": "2 actions on more trees / fixtures / start states; 3 actions on T07, T09, T15 with the kinds of the first two fixed per job, rows < 5, texts < 3",
     },
     "outside": ["Textual widgets", "longer sequences"],
     "stubs": ["stand-in for MenuConfigApp's self (vk/ui.py)", "memfs"],
@@ -140,7 +140,7 @@ def jobs(tier, seed, excluded=()):
         trees, nact, tmo, budget = ["T15", "T07", "T06", "T09"], 2, 150, 2
         inits = ["tool", "absent", "nomarks", "unknown", "dup"]
     else:
-        trees, nact, tmo, budget = ["T15", "T07", "T06", "T09", "T08", "T03", "T01"] + ["F:menuconfig/kconfigs/Kconfig." + x for x in ("default_value_changed", "indirect_sets", "choice_default", "pilot_all_scalars")], 3, 500, 3
+        trees, nact, tmo, budget = ["T15", "T07", "T06", "T09", "T08", "T03", "T01"] + ["F:menuconfig/kconfigs/Kconfig." + x for x in ("default_value_changed", "indirect_sets", "choice_default", "pilot_all_scalars")], 2, 300, 3
         inits = ["tool", "absent", "nomarks", "unknown", "dup"]
     out = []
     trees = trees + ["T13b"]
@@ -155,4 +155,15 @@ def jobs(tier, seed, excluded=()):
                     ep += [("a%d" % j, "int"), ("x%d" % j, "int"), ("y%d" % j, "int")]
                     epre.append("0 <= a%d <= 9 and 0 <= x%d < %d and 0 <= y%d <= 9" % (j, j, max(8, nn), j))
                 out += state_jobs("C16", "vk.props.c16", "session", [tid], dom, budget, 1, tmo, rng, {"nact": nact, "first": first, "init": init}, tag="%s-a%d" % (init, first), extra_params=ep, extra_pre=" and ".join(epre) + " and a0 == %d" % first, extra_samples=lambda r, first=first: [x for j in range(nact) for x in ((first if j == 0 else r.randint(0, 9)), r.randint(0, 7), r.randint(0, 9))])
+    if tier == "thorough":
+        # three actions: kinds of the first two fixed per job, rows / texts from a reduced range
+        for tid in ["T07", "T09", "T15"]:
+            for init in ("tool", "nomarks"):
+                for f0 in firsts:
+                    for f1 in rng.sample(firsts, 3):
+                        ep, epre = [], []
+                        for j in range(3):
+                            ep += [("a%d" % j, "int"), ("x%d" % j, "int"), ("y%d" % j, "int")]
+                            epre.append("0 <= a%d <= 9 and 0 <= x%d < 5 and 0 <= y%d <= 2" % (j, j, j))
+                        out += state_jobs("C16", "vk.props.c16", "session", [tid], dom, 1, 1, tmo, rng, {"nact": 3, "first": f0, "init": init}, tag="%s-a%d-a%d-3" % (init, f0, f1), extra_params=ep, extra_pre=" and ".join(epre) + " and a0 == %d and a1 == %d" % (f0, f1), extra_samples=lambda r, f0=f0, f1=f1: [f0, r.randrange(5), r.randint(0, 2), f1, r.randrange(5), r.randint(0, 2), r.randint(0, 9), r.randrange(5), r.randint(0, 2)])
     return out
